@@ -24,6 +24,12 @@ var gStructPos = map[*ProviderSpec]int{}
 // ghost: the provider the first pass is looking at (index into build.Providers)
 var gProvIdx int
 
+// ghost: the nodes pushed onto the work queue so far, and the nodes taken from it and expanded
+var (
+	gQueued  = map[*node]bool{}
+	gVisited = map[*node]bool{}
+)
+
 // stands for the type of the same name declared inside NewGraph, which a contract file cannot name (kvc checks that
 // the two have the same fields; field heaps are keyed by package, type and field name)
 type fnProvider struct {
@@ -47,6 +53,13 @@ func tableWF(m map[string]*fnProvider) bool {
 	return m != nil && vs.ForallString(func(k string) bool {
 		return vs.Has(m, k) == (gSupplier[k] != nil) &&
 			vs.Implies(vs.Has(m, k), m[k] != nil && vs.IsAllocated(m[k]) && m[k].provider == gSupplier[k] && vs.IsAllocated(m[k].provider))
+	})
+}
+
+// tableIdxWF: the result group recorded for a type exists
+func tableIdxWF(m map[string]*fnProvider) bool {
+	return vs.ForallString(func(k string) bool {
+		return vs.Implies(vs.Has(m, k), 0 <= m[k].returnIndex && m[k].returnIndex < len(m[k].provider.Provides))
 	})
 }
 
@@ -117,9 +130,12 @@ func contract_NewGraph_suppliers(metaData *MetaData, build *BuildDirective, varP
 }
 
 //kvc:ghost NewGraph@suppliers before "fnProviderMap := make(map[string]*fnProvider)"
+//kvc:ghost NewGraph@shape before "fnProviderMap := make(map[string]*fnProvider)"
 func ghostSuppliersStart() {
 	gSupplier = map[string]*ProviderSpec{}
 	gStructPos = map[*ProviderSpec]int{}
+	gQueued = map[*node]bool{}
+	gVisited = map[*node]bool{}
 }
 
 //kvc:ghost NewGraph@suppliers before "if provider.Type == ProviderTypeStruct"
@@ -131,9 +147,11 @@ func ghostStructPos(provider *ProviderSpec, structProviders []*ProviderSpec) {
 }
 
 //kvc:ghost NewGraph@suppliers after "fnProviderMap[key] = &fnProvider{"
+//kvc:ghost NewGraph@shape after "fnProviderMap[key] = &fnProvider{"
 func ghostSupplierFn(key string, provider *ProviderSpec) { gSupplier[key] = provider }
 
 //kvc:ghost NewGraph@suppliers after "fnProviderMap[fieldTypeKey] = &fnProvider{"
+//kvc:ghost NewGraph@shape after "fnProviderMap[fieldTypeKey] = &fnProvider{"
 func ghostSupplierField(fieldTypeKey string, fieldProvider *ProviderSpec) {
 	gSupplier[fieldTypeKey] = fieldProvider
 }
@@ -283,4 +301,195 @@ func inv_NewGraph_bfs_requires(metaData *MetaData, varPool *VarPool, graph *Grap
 	vs.Invariant("edges", edgesWellFormedEverywhere(graph))
 	vs.Invariant("nodes", graphNodesAllocated(graph))
 	vs.Invariant("current", vs.IsAllocated(n1) && n1.providerSpec != nil)
+}
+
+// ---------------------------------------------------------------------------
+// C01/C02: NewGraph, the shape of the graph it returns - a third contract of NewGraph (aspect "shape"). It proves the
+// part of graphWF (assumed by Build) that does not need the inverse slot function: nodes and edges are well formed, the
+// requested value exists, and a provider node that was expanded has exactly one reverse edge per argument (what
+// topologicalSortIter's counter relies on).
+// ---------------------------------------------------------------------------
+
+// nodeShape: a node is an argument or a provider, and a provider node has one argument slot per required type
+func nodeShape(n *node) bool {
+	return nodeWF(n) && vs.Implies(n.providerSpec != nil, len(n.providerArgs) == len(n.providerSpec.Requires))
+}
+
+func queuedWF() bool {
+	return vs.ForallRef(func(n *node) bool { return vs.Implies(gQueued[n], n != nil && vs.IsAllocated(n) && nodeShape(n)) })
+}
+
+func providerNodesWF(m map[*ProviderSpec]*node) bool {
+	return m != nil && vs.ForallRef(func(p *ProviderSpec) bool {
+		return vs.Implies(vs.Has(m, p), m[p] != nil && m[p].providerSpec == p && gQueued[m[p]])
+	})
+}
+
+func argNodesWF(m map[string]*node) bool {
+	return m != nil && vs.ForallString(func(k string) bool {
+		return vs.Implies(vs.Has(m, k), m[k] != nil && m[k].providerSpec == nil && gQueued[m[k]])
+	})
+}
+
+// the clauses of edgeWF, one invariant each (a single conjunctive invariant was too heavy for the solvers)
+func edgesPointAtQueuedNodes(g *Graph) bool {
+	return vs.ForallRef(func(n *node) bool {
+		return vs.Forall(len(g.edges[n]), func(i int) bool {
+			return g.edges[n][i] != nil && vs.IsAllocated(g.edges[n][i]) && gQueued[g.edges[n][i].node]
+		})
+	})
+}
+
+func edgesPointAtArgumentSlots(g *Graph) bool {
+	return vs.ForallRef(func(n *node) bool {
+		return vs.Forall(len(g.edges[n]), func(i int) bool {
+			return g.edges[n][i].node.providerSpec != nil &&
+				0 <= g.edges[n][i].provideArgDst && g.edges[n][i].provideArgDst < len(g.edges[n][i].node.providerArgs)
+		})
+	})
+}
+
+func edgesNameExistingValues(g *Graph) bool {
+	return vs.ForallRef(func(n *node) bool {
+		return vs.Forall(len(g.edges[n]), func(i int) bool {
+			return 0 <= g.edges[n][i].provideArgSrc && g.edges[n][i].provideArgSrc < returnCount(n)
+		})
+	})
+}
+
+func returnShape(g *Graph) bool {
+	return g.returnValue != nil && gQueued[g.returnValue.node] &&
+		0 <= g.returnValue.returnIndex && g.returnValue.returnIndex < returnCount(g.returnValue.node)
+}
+
+// reverseEdgesCounted: a node that has not been expanded has no reverse edge; an expanded provider node other than
+// cur has one per required type
+func reverseEdgesCounted(g *Graph, cur *node) bool {
+	return vs.ForallRef(func(n *node) bool {
+		return vs.Implies(gVisited[n] && n != nil && n != cur && n.providerSpec != nil, len(g.reverseEdges[n]) == len(n.providerSpec.Requires))
+	})
+}
+
+func unvisitedHaveNoReverseEdges(g *Graph) bool {
+	return vs.ForallRef(func(n *node) bool { return vs.Implies(!gVisited[n], len(g.reverseEdges[n]) == 0) })
+}
+
+//kvc:contract NewGraph@shape
+func contract_NewGraph_shape(metaData *MetaData, build *BuildDirective, varPool *VarPool) (result *Graph, err error) {
+	vs.Requires(metaData != nil && metaData.Imports != nil && poolInv(varPool) && buildInputWF(build))
+	vs.Ensures("graph_returned", (err == nil) == (result != nil))
+	vs.Ensures("nodes_well_formed", vs.Implies(err == nil, vs.Forall(len(result.nodes), func(k int) bool { return nodeShape(result.nodes[k]) })))
+	vs.Ensures("edges_well_formed", vs.Implies(err == nil, result.edges != nil && edgesWF(result)))
+	vs.Ensures("requested_value_exists", vs.Implies(err == nil, result.returnValue != nil && nodeWF(result.returnValue.node) &&
+		0 <= result.returnValue.returnIndex && result.returnValue.returnIndex < returnCount(result.returnValue.node)))
+	// what topologicalSortIter's per-node counter (len(reverseEdges[n]), decremented once per argument edge) needs
+	vs.Ensures("reverse_edges_one_per_argument", vs.Implies(err == nil, vs.Forall(len(result.nodes), func(k int) bool {
+		return vs.Implies(result.nodes[k].providerSpec != nil,
+			len(result.reverseEdges[result.nodes[k]]) == 0 || len(result.reverseEdges[result.nodes[k]]) == len(result.nodes[k].providerSpec.Requires))
+	})))
+	vs.ModifiesAll()
+	vs.Allocates()
+	return
+}
+
+//kvc:loop NewGraph@shape "for _, provider := range build.Providers"
+func inv_NewGraph_shape_pass1(build *BuildDirective, fnProviderMap map[string]*fnProvider, structProviders []*ProviderSpec) {
+	vs.Invariant("input", buildInputWF(build))
+	vs.Invariant("table", tableWF(fnProviderMap))
+	vs.Invariant("table_idx", tableIdxWF(fnProviderMap))
+	vs.Invariant("struct_list", vs.Forall(len(structProviders), func(k int) bool { return providerInputWF(structProviders[k]) }))
+}
+
+//kvc:loop NewGraph@shape "for groupIndex, typeGroup := range provider.Provides"
+func inv_NewGraph_shape_pass1_groups(build *BuildDirective, fnProviderMap map[string]*fnProvider, provider *ProviderSpec) {
+	vs.Invariant("input", buildInputWF(build))
+	vs.Invariant("table", tableWF(fnProviderMap))
+	vs.Invariant("table_idx", tableIdxWF(fnProviderMap))
+	vs.Invariant("current", providerInputWF(provider))
+}
+
+//kvc:loop NewGraph@shape "for typeIndex, t := range typeGroup"
+func inv_NewGraph_shape_pass1_types(build *BuildDirective, fnProviderMap map[string]*fnProvider, provider *ProviderSpec, groupIndex int) {
+	vs.Invariant("input", buildInputWF(build))
+	vs.Invariant("table", tableWF(fnProviderMap))
+	vs.Invariant("table_idx", tableIdxWF(fnProviderMap))
+	vs.Invariant("current", providerInputWF(provider) && 0 <= groupIndex && groupIndex < len(provider.Provides))
+}
+
+//kvc:loop NewGraph@shape "for _, structProvider := range structProviders"
+func inv_NewGraph_shape_pass2(build *BuildDirective, fnProviderMap map[string]*fnProvider, structProviders []*ProviderSpec) {
+	vs.Invariant("input", buildInputWF(build))
+	vs.Invariant("table", tableWF(fnProviderMap))
+	vs.Invariant("table_idx", tableIdxWF(fnProviderMap))
+	vs.Invariant("struct_list", vs.Forall(len(structProviders), func(k int) bool { return providerInputWF(structProviders[k]) }))
+}
+
+//kvc:loop NewGraph@shape "for _, field := range structProvider.StructFields"
+func inv_NewGraph_shape_pass2_fields(build *BuildDirective, fnProviderMap map[string]*fnProvider, structProviders []*ProviderSpec, structProvider *ProviderSpec) {
+	vs.Invariant("input", buildInputWF(build))
+	vs.Invariant("table", tableWF(fnProviderMap))
+	vs.Invariant("table_idx", tableIdxWF(fnProviderMap))
+	vs.Invariant("struct_list", vs.Forall(len(structProviders), func(k int) bool { return providerInputWF(structProviders[k]) }))
+	vs.Invariant("current", providerInputWF(structProvider))
+}
+
+//kvc:ghost NewGraph@shape after "queue.Push(returnNode)"
+func ghostQueuedReturn(returnNode *node) { gQueued[returnNode] = true }
+
+//kvc:ghost NewGraph@shape after "queue.Push(n2)"
+func ghostQueued(n2 *node) { gQueued[n2] = true }
+
+//kvc:ghost NewGraph@shape after "visited[n1] = true"
+func ghostVisited(n1 *node) { gVisited[n1] = true }
+
+//kvc:ghost NewGraph@shape before "if n1 == nil || visited[n1]"
+func ghostQueueYieldsPushed(n1 *node) {
+	// ASSUMED of collection.Queue: it yields only what was pushed
+	vs.Assume(n1 == nil || gQueued[n1])
+}
+
+//kvc:loop NewGraph@shape "for n1 := range queue.Iter"
+func inv_NewGraph_shape_bfs(metaData *MetaData, varPool *VarPool, graph *Graph, fnProviderMap map[string]*fnProvider,
+	providerNodeMap map[*ProviderSpec]*node, argNodeMap map[string]*node, visited map[*node]bool) {
+	vs.Invariant("table", tableWF(fnProviderMap))
+	vs.Invariant("table_idx", tableIdxWF(fnProviderMap))
+	vs.Invariant("env", metaData != nil && metaData.Imports != nil && poolInv(varPool))
+	vs.Invariant("maps", graph.edges != nil && graph.reverseEdges != nil && visited != nil)
+	vs.Invariant("queued", queuedWF())
+	vs.Invariant("provider_nodes", providerNodesWF(providerNodeMap))
+	vs.Invariant("arg_nodes", argNodesWF(argNodeMap))
+	vs.Invariant("nodes", vs.Forall(len(graph.nodes), func(k int) bool { return gQueued[graph.nodes[k]] }))
+	vs.Invariant("edges_targets", edgesPointAtQueuedNodes(graph))
+	vs.Invariant("edges_slots", edgesPointAtArgumentSlots(graph))
+	vs.Invariant("edges_values", edgesNameExistingValues(graph))
+	vs.Invariant("requested", returnShape(graph))
+	vs.Invariant("visited_mirror", vs.ForallRef(func(n *node) bool { return visited[n] == gVisited[n] }))
+	vs.Invariant("visited_were_queued", vs.ForallRef(func(n *node) bool { return vs.Implies(gVisited[n], gQueued[n]) }))
+	vs.Invariant("edge_sources_were_queued", vs.ForallRef(func(n *node) bool { return vs.Implies(len(graph.edges[n]) > 0, gQueued[n]) }))
+	vs.Invariant("reverse", reverseEdgesCounted(graph, nil))
+	vs.Invariant("reverse_unvisited", unvisitedHaveNoReverseEdges(graph))
+}
+
+//kvc:loop NewGraph@shape "for i, t := range n1.providerSpec.Requires"
+func inv_NewGraph_shape_bfs_requires(metaData *MetaData, varPool *VarPool, graph *Graph, fnProviderMap map[string]*fnProvider,
+	providerNodeMap map[*ProviderSpec]*node, argNodeMap map[string]*node, visited map[*node]bool, n1 *node, kvcIdx int) {
+	vs.Invariant("table", tableWF(fnProviderMap))
+	vs.Invariant("table_idx", tableIdxWF(fnProviderMap))
+	vs.Invariant("env", metaData != nil && metaData.Imports != nil && poolInv(varPool))
+	vs.Invariant("maps", graph.edges != nil && graph.reverseEdges != nil && visited != nil)
+	vs.Invariant("queued", queuedWF())
+	vs.Invariant("provider_nodes", providerNodesWF(providerNodeMap))
+	vs.Invariant("arg_nodes", argNodesWF(argNodeMap))
+	vs.Invariant("nodes", vs.Forall(len(graph.nodes), func(k int) bool { return gQueued[graph.nodes[k]] }))
+	vs.Invariant("edges_targets", edgesPointAtQueuedNodes(graph))
+	vs.Invariant("edges_slots", edgesPointAtArgumentSlots(graph))
+	vs.Invariant("edges_values", edgesNameExistingValues(graph))
+	vs.Invariant("requested", returnShape(graph))
+	vs.Invariant("visited_mirror", vs.ForallRef(func(n *node) bool { return visited[n] == gVisited[n] }))
+	vs.Invariant("visited_were_queued", vs.ForallRef(func(n *node) bool { return vs.Implies(gVisited[n], gQueued[n]) }))
+	vs.Invariant("edge_sources_were_queued", vs.ForallRef(func(n *node) bool { return vs.Implies(len(graph.edges[n]) > 0, gQueued[n]) }))
+	vs.Invariant("current", gQueued[n1] && gVisited[n1] && n1.providerSpec != nil)
+	vs.Invariant("reverse", reverseEdgesCounted(graph, n1))
+	vs.Invariant("reverse_unvisited", unvisitedHaveNoReverseEdges(graph))
+	vs.Invariant("reverse_current", len(graph.reverseEdges[n1]) == kvcIdx)
 }
